@@ -567,6 +567,33 @@ def s10_recovered_arm(src_text, stats):
             + (body if body.lstrip().startswith("{") else "{ " + body + "; }") + "\n")
 
 
+
+def s11_actor_methods(src_text, stats):
+    """S11: the two synchronous methods of ReplicatedShardActor that connect the executor with the replication state
+    (record_mutation_post_execute: command -> delta; apply_remote_delta_impl: merged delta -> executor commands) become
+    free functions of the two fields they use (text copied, `self.replica_state` / `self.executor` rebound). The actor
+    itself cannot be constructed without a runtime (its mailbox)."""
+    out = ["\n// ---- S11: generated by /verif/stage/stage.py (ReplicatedShardActor methods over their two fields; text copied) ----\n"]
+    for name in ("record_mutation_post_execute", "apply_remote_delta_impl"):
+        f = extract_fn(src_text, name)
+        if f is None:
+            die("S11: fn %s not found" % name)
+        sig_end = f.index("{")
+        sig, body = f[:sig_end], f[sig_end:]
+        fields = set(re.findall(r"\bself\.([a-zA-Z_][a-zA-Z0-9_]*)", body))
+        if fields - {"replica_state", "executor"} or ".await" in body or re.search(r"\bself\b(?!\.)", body):
+            die("S11: %s uses %s" % (name, sorted(fields)))
+        sig = re.sub(r"^[ \t]*(?:pub(?:\([a-z]+\))?\s+)?fn\s+" + name, "pub fn verif_" + name, sig, flags=re.M)
+        sig, c = re.subn(r"\(\s*&mut self\s*,?", "(replica_state: &mut ShardReplicaState, executor: &mut CommandExecutor, ", sig, count=1)
+        if c != 1:
+            die("S11: %s does not take &mut self" % name)
+        body = re.sub(r"\bself\.replica_state\b", "(*replica_state)", body)
+        body = re.sub(r"\bself\.executor\b", "(*executor)", body)
+        out.append("#[allow(dead_code, unused_variables, unused_mut, clippy::all)]\n" + sig + body + "\n")
+        stats["s11"] = stats.get("s11", 0) + 1
+    return "".join(out)
+
+
 def write_if_changed(path, data):
     if os.path.exists(path):
         with open(path, "rb") as f:
@@ -613,12 +640,13 @@ def main():
                     text += s8_compaction_fold(text, stats)
                 if rel == "src/production/replicated_shard_actor.rs":
                     text += s10_recovered_arm(text, stats)
+                    text += s11_actor_methods(text, stats)
                 if rel == "src/redis/mod.rs":
                     text += "\n// S7: generated re-exports\npub use commands::verif_arms_prod;\npub use parser::verif_arms_sim;\n"
                 if rel == "src/production/mod.rs":
                     text += ("\n// S3: generated re-exports\npub use connection_optimized::{verif_batch_admitted, verif_collect_get_keys, "
                              "verif_collect_set_pairs, verif_fast_get_parse, verif_fast_set_parse};\n"
-                             "// S10: generated re-export\npub use replicated_shard_actor::verif_apply_recovered_state;\n")
+                             "// S10: generated re-export\npub use replicated_shard_actor::{verif_apply_recovered_state, verif_record_mutation_post_execute, verif_apply_remote_delta_impl};\n")
                 if changed:
                     stats["files_substituted"] += 1
                 data = text.encode("utf-8")
